@@ -263,6 +263,7 @@ rc_op('cif_packet_set_item:replace-with-numb', 'cif_packet_set_item', lambda L, 
 rc_op('cif_value_set_element_at:numb', 'cif_value_set_element_at', lambda L, fx: (fx.v_list, 0, fx.v_numb))
 rc_op('cif_container_remove_item:scalar', 'cif_container_remove_item', lambda L, fx: (fx.b1, U('_s_numb')))
 rc_op('cif_container_remove_item:loop', 'cif_container_remove_item', lambda L, fx: (fx.b1, U('_l3')))
+rc_op('cif_container_remove_item:sole-item-of-its-loop', 'cif_container_remove_item', lambda L, fx: (fx.f1, U('_f')))
 rc_op('cif_loop_set_category', 'cif_loop_set_category', lambda L, fx: (fx.loop, U('newcat')))
 rc_op('cif_loop_add_item', 'cif_loop_add_item', lambda L, fx: (fx.loop, U('_l4'), fx.v_table))
 rc_op('cif_loop_add_item:null', 'cif_loop_add_item', lambda L, fx: (fx.loop, U('_l4'), None))
